@@ -177,5 +177,20 @@ def handle (j : Json) : Except String Json := do
     pure (Json.mkObj [("ruleErrors", .arr w.ruleErrors.toArray), ("rules", .arr (w.env.rules.map jRule).toArray),
       ("warm", toJson warm), ("cold", toJson cold), ("can", .arr can.toArray),
       ("tojson", .arr tjs.toArray), ("schema", .arr schemas.toArray)])
+  | "thread" =>
+    -- a thread's life: db_sessions one after the other; every session carries its own world (memberships may differ)
+    let sessions ← (← argArr j "sessions").mapM (fun sj => do
+      let w ← worldOf sj
+      let calls ← (← argArr sj "calls").mapM (fun x => do
+        match x with
+        | .arr #[u, p, t] => pure ((← userOf u), (← fromJson? p : String), (← targetOf w.attrs t))
+        | _ => throw "call = [user, perm, target]")
+      let k ← match ← argStr sj "exit" with
+        | "commit" => pure ExitKind.commit
+        | "rollback" => pure ExitKind.rollback
+        | "commitFails" => pure ExitKind.commitFails
+        | e => throw s!"unknown exit kind {e}"
+      pure (w.env, calls, k))
+    pure (Json.mkObj [("answers", toJson (runThread { groups := [], roles := [] } sessions))])
   | _ => throw s!"unknown op {op}"
 end PonyVerif.Drive.C34
